@@ -200,6 +200,8 @@ impl OpenStreamIndex {
     ) -> Result<(Mphf<StreamId>, u64), StreamIndexError> {
         #[cfg(feature = "verif")]
         seglog::verif::point("flush:start", 2, seglog::verif::fd_of(file));
+        #[cfg(feature = "verif")]
+        let _verif_done = seglog::verif::OnDrop("flush:done", 2, seglog::verif::fd_of(file));
         // Collect all keys from the index as strings
         let keys: Vec<_> = index.keys().cloned().collect();
         let n = keys.len() as u64;
